@@ -59,7 +59,7 @@ theorem caseStep_c (cx : Cx) (fuel : Nat) (env0 : Src.Env) (he0 : EnvOK cx env0)
       ((∃ sL eB, st'.hdrJumps = st.hdrJumps ++ (hs ++ [LItem.ljump ⟨n, bp.name, bp.params⟩ (some sL)]) ∧
           st'.caseOps = st.caseOps ++ ([LItem.label sL false] ++ ops ++ [LItem.label eB false]) ∧
           WaitSem cx fuel sL st.waiting hs st.defaultOps d1) ∨
-       (∃ l eB, loneJump ops = some (some l) ∧
+       (∃ l eB, fallsThrough st.caseOps = false ∧ loneJump ops = some (some l) ∧
           st'.hdrJumps = st.hdrJumps ++ (hs ++ [LItem.ljump ⟨n, bp.name, bp.params⟩ (some l)]) ∧
           st'.caseOps = st.caseOps ++ [LItem.label eB false] ∧ WaitSem cx fuel l st.waiting hs st.defaultOps d1)) := by
   unfold caseStep at h
@@ -84,7 +84,7 @@ theorem caseStep_c (cx : Cx) (fuel : Nat) (env0 : Src.Env) (he0 : EnvOK cx env0)
     | cons n hrest =>
       cases hrest
       exact ⟨n, rfl⟩
-  rcases hsh with ⟨l, eB, _, hlone, hitems, hstart, hh⟩ | ⟨sL, eB, hitems, hstart, hh⟩
+  rcases hsh with ⟨l, eB, hcf, _, hlone, hitems, hstart, hh⟩ | ⟨sL, eB, hitems, hstart, hh⟩
   · rw [hstart] at h4
     simp only [bind_ok, pure_ok] at h4
     obtain ⟨p, s4, h5, h6⟩ := h4
@@ -94,7 +94,7 @@ theorem caseStep_c (cx : Cx) (fuel : Nat) (env0 : Src.Env) (he0 : EnvOK cx env0)
     obtain ⟨e5, ws⟩ := waiting_sem cx fuel l _ _ _ _ _ _ hw h5
     obtain ⟨n, hhdr⟩ := hsingle _ hh
     refine ⟨hstk.trans e5, rfl, hs', dops', ops, _, sb, n, rfl, hrun, hP, rfl, rfl, fun n id h => e5.3 n id (e2.3 n id h),
-      .inr ⟨l, eB, hlone, ?_, ?_, ws⟩⟩
+      .inr ⟨l, eB, by simpa using hcf, hlone, ?_, ?_, ws⟩⟩
     · simp only [hhdr, List.append_assoc]
     · simp only [hitems]
   · rw [hstart] at h4
@@ -127,7 +127,7 @@ theorem defaultStep_c (cx : Cx) (fuel : Nat) (env0 : Src.Env) (he0 : EnvOK cx en
   obtain ⟨_, rfl⟩ := h1
   obtain ⟨_, rfl⟩ := h3
   obtain ⟨ops, sb, hrun, e2, hsh⟩ := case_block_shape h2
-  rcases hsh with ⟨l, eB, hne, _⟩ | ⟨sL, eB, hitems, hstart, hh⟩
+  rcases hsh with ⟨l, eB, _, hne, _⟩ | ⟨sL, eB, hitems, hstart, hh⟩
   · exact absurd rfl hne
   rw [hstart] at h4
   simp only [bind_ok, pure_ok] at h4
@@ -150,14 +150,15 @@ theorem defaultStep_c (cx : Cx) (fuel : Nat) (env0 : Src.Env) (he0 : EnvOK cx en
 
 /-! ### all case handlers -/
 
-/-- step 3 of `SwitchBlock.collect` over the handlers of `cs`, from any state of the step -/
+/-- step 3 of `SwitchBlock.collect` over the handlers of `cs`, from any state of the step.  `FI`: control can fall into the first
+block from the blocks collected before; if the fragment allows a folded block here (`nf`), then `_falls_through` sees it -/
 def CasesC (cx : Cx) (fuel : Nat) (sw : String) (nf : Bool) (cs : Cases) (run : Nat → List BP → SwSt → M SwSt) : Prop :=
   ∀ (env : Src.Env), EnvOK cx env → ∀ (endL : Nat) (bps : List BP) (st : SwSt) (s : St) (st' : SwSt) (s' : St),
     BpsOK sw cs bps → WaitOK st.waiting → (if hasNone st.waiting then 1 else 0) + countDefaults cs ≤ 1 →
     run endL bps st s = .ok (st', s') →
     SameStk s s' ∧ (NoNone st.defaultOps → NoNone st'.defaultOps) ∧
     ∃ Hn Cn, st'.hdrJumps = st.hdrJumps ++ Hn ∧ st'.caseOps = st.caseOps ++ Cn ∧ NoNone Hn ∧ NoNone Cn ∧
-      (st'.waiting = [] → ∀ FI : Prop, (nf = true → ¬ FI) →
+      (st'.waiting = [] → ∀ FI : Prop, (nf = true → FI → fallsThrough st.caseOps = true) →
         SwSem cx fuel env endL s.loops s.cases s' FI (wSrc st.waiting (toSrcCases sw cs)) Hn Cn st.defaultOps st'.defaultOps)
 
 theorem SwSem.stk {cx : Cx} {fuel : Nat} {env : Src.Env} {endL : Nat} {L L' : List (Nat × Nat)} {Cs Cs' : List Nat} {sE : St} {FI : Prop} {SC : Src.Cases}
